@@ -88,6 +88,8 @@ def canon_obj(j):
 def summarize(op, r):
     """canonical summary of a returned value (same form as Driver/C02.lean: resToJson)"""
     d = L.describe
+    if op.flags.get('oracle_only'):
+        return {'k': 'oracle_only', 'items': str(d(r))[:200]}
     if op.flags.get('iter'):
         return {'k': 'items', 'items': d(r), 'objs': canon_obj([_obj_json(x) for x in r])}
     post = op.post
@@ -265,6 +267,26 @@ def gen_cases(run, scale):
             t = L.build_response(op, op.valid(g))
             labels = [L.mutate(g, t) for _ in range(r.choice([1, 1, 1, 1, 2, 3]))]
             add(op, labels, L.ser(t).encode('utf-8', 'surrogatepass'))
+        # near miss: a valid result of another operation inside this operation's envelope
+        for other in r.sample(ops, min(len(ops), max(3, scale // 6))):
+            if other.kind == op.kind or op.kind == 'imethod':
+                add(op, ['cross:' + other.name.split(':')[0]],
+                    L.ser(L.build_response(op, other.valid(g))).encode('utf-8'))
+        # systematic: the complete single-fault neighbourhood of one small valid response (thorough: all of it;
+        # quick: every 12th member)
+        g2 = cimgen.Gen(__import__('random').Random(r.randrange(1 << 30)), allow_cr=False, max_depth=1)
+        base = None
+        for _ in range(40):
+            cand = L.build_response(op, op.valid(g2))
+            if base is None or len(list(L.walk(cand))) < len(list(L.walk(base))):
+                if len(list(L.walk(cand))) >= 6 or op.post == 'void':
+                    base = cand
+        if base is None:
+            base = cand
+        step = 1 if run.thorough else 12
+        for i, (lab, t2) in enumerate(L.systematic_mutants(base)):
+            if i % step == 0:
+                add(op, [lab], L.ser(t2).encode('utf-8', 'surrogatepass'))
         # byte-level mutants
         for _ in range(max(2, scale // 5)):
             body = L.ser(L.build_response(op, op.valid(g))).encode('utf-8')
@@ -276,7 +298,7 @@ def gen_cases(run, scale):
             lab, st, reason, h, b = L.http_variants(g, body)
             add(op, ['http:' + lab], b, status=st, reason=reason, headers=h)
         # the server echoes a request
-        conn, ad = L.new_conn(use_pull_operations=op.pull)
+        conn, ad = L.new_conn(use_pull_operations=None if op.pull == 'auto' else op.pull)
         sent = []
 
         def script(meth, request, sent=sent):
@@ -339,7 +361,10 @@ def run(run):
                 'type-directed generator, CIM errors, 1-3 tree-level mutations (drop/duplicate/swap/rename element, '
                 'drop/garble/re-case attribute, CODE/ARRAYSIZE/TYPE/PARAMTYPE/VALUETYPE garbling, numeric text pool '
                 '(INF, NaN, 1e400, 1_0, Arabic-Indic digits, 0x, sign only, empty, out-of-range), VALUE.NULL insertion, '
-                'replacement/insertion of well-formed elements of 22 kinds, wrong IRETURNVALUE content, ERROR at any '
+                'replacement/insertion of well-formed elements of 22 kinds, wrong IRETURNVALUE content, valid results of other '
+                'operations in this operation\'s envelope, the complete single-fault neighbourhood (drop/duplicate/rename every '
+                'element, drop/set every attribute, key texts) of one small valid response per operation (thorough: all '
+                'members, quick: every 12th), ERROR at any '
                 'position), byte-level damage (truncation, ill-formed UTF-8, illegal XML characters, XML declarations '
                 'with odd encodings, UTF-16/Latin-1 re-encoding, junk, bit flips), HTTP variants (status, 401 with '
                 'WWW-Authenticate forms, Content-type, WBEMServerResponseTime, CIMError/PGErrorDetail), an echoed '
@@ -359,7 +384,8 @@ def run(run):
         if 'crash' in rec:
             raise RuntimeError('harness crash on case %s: %s' % (c['labels'], rec['crash']))
     # model side (transport cases have no model counterpart)
-    mcases = [(c, rec) for c, rec in zip(cases, reals) if c.get('transport_exc') is None]
+    mcases = [(c, rec) for c, rec in zip(cases, reals)
+              if c.get('transport_exc') is None and not L.op_by_name(c['op']).flags.get('oracle_only')]
     reqs = common.pmap(_mreq, [c for c, _ in mcases], chunksize=16)
     keep = [i for i, q in enumerate(reqs) if q is not None]
     run.count('K:skipped_too_deep_for_model', len(reqs) - len(keep))
